@@ -1,4 +1,5 @@
 import CwPlus.Lemmas.Json
+import CwPlus.Lemmas.JsonFuel
 import CwPlus.Model.Ics20Wire
 import CwPlus.Props.C12
 /-!
@@ -13,7 +14,8 @@ and the handlers of `Model/Ics20.lean`.  This file proves
   Unicode, control characters, quotes and backslashes included (`SupportedText` is `True`; a Lean `String` is a
   sequence of Unicode scalar values, exactly what a Rust `String` is);
 * `decode_encode_ack(_bytes)`, `ack_success_ne_error`: the two acknowledgement shapes never collide;
-* `decode_total`: the decoder is a total function (no panic, no non-termination: structural recursion / fuel);
+* `decode_total`, `decode_fuel_sufficient`: the decoder is a total function (no panic, no non-termination:
+  structural recursion / fuel) and its fuel is never exhausted;
 * `transfer_emits_encoded_packet`: C12 `transfer_emits_one_packet` lifted to the bytes of `IbcMsg::SendPacket.data`;
 * `receive_decodes_or_error_ack`, `receive_undecodable_tx`: an incoming packet's data either decodes — then the
   receive model runs on the decoded fields — or the answer is an error acknowledgement and nothing changes: the
@@ -227,6 +229,18 @@ theorem decode_total (bs : Json.Bytes) :
   · cases h : Json.decodeAckBytes bs with
     | ok a => exact Or.inl ⟨a, rfl⟩
     | error e => exact Or.inr ⟨e, rfl⟩
+
+/-- **decode_fuel_sufficient**: the fuel argument that makes the loops of the decoder structurally recursive is
+never the reason for an answer — `decodePacketBytes` hands out `2·len + 16`, every loop iteration and every
+recursive descent (`parseFields`, `skipValue`, `skipSeq`, `skipMap`) consumes at least one byte per two units.
+So the error the model reports is always one the real deserializer reports too, never an artefact. -/
+theorem decode_fuel_sufficient (bs : Json.Bytes) : Json.decodePacketBytes bs ≠ .error .fuel :=
+  Json.decodePacketBytes_ne_fuel bs
+
+set_option maxRecDepth 100000 in
+/-- deep nesting is refused because of the recursion limit of serde-json-wasm (128), not for lack of fuel -/
+example : Json.decodePacketBytes (Json.strBytes ("{\"x\":" ++ String.ofList (List.replicate 200 '[')))
+    = .error .recursionLimitExceeded := by decide
 
 /-! ## Sending: the bytes of `IbcMsg::SendPacket` -/
 
